@@ -24,7 +24,7 @@ from props import c11
 TRUSTED = [
     "Lean 4.33 kernel; axioms ⊆ {propext, Classical.choice, Quot.sound}",
     "the constant-environment model covers str and list-of-int values read by len(); flash_pattern/glyph/sensor-model fold sites read the same environment and are covered by the end-to-end oracle only",
-    "the evaluator model covers int/bool/str/list values (floats, true division, & | ^ outside; see C11)",
+    "the evaluator model covers int/bool/str/list values and the whole operator table (float values outside: `/` answers 'ok float', compared at the root only; see C11)",
     "mock core + host g++",
 ]
 PRINT_K = re.compile(r"Serial\.println\((\d+)\);")
@@ -35,7 +35,7 @@ def evaluator(ctx):
     """(a) name-free expressions: model = _eval_const = Python"""
     P = importlib.import_module("Reduino.transpile.parser")
     rng = ctx.rng
-    cases = [c11.gen_expr(rng, rng.choice([1, 2, 3]), []) for _ in range(ctx.n(800, 12000))]
+    cases = [c11.gen_expr(rng, rng.choice([1, 2, 3]), []) for _ in range(ctx.n(800, 12000))] + c11.directed_float_cases()
     # chained comparisons whose middle operand decides
     for _ in range(ctx.n(100, 1500)):
         a, b, c = (rng.randint(0, 12) for _ in range(3))
@@ -62,7 +62,7 @@ def evaluator(ctx):
         ctx.count("eval:" + impl.split(" ")[0])
         ctx.case("eval:" + sx, nontrivial=impl.startswith("ok"))
         ctx.cov["traces_validated_against_impl"] += 1
-        if m != impl and "other:" not in impl:
+        if c11.outcome_relation(m, impl, sx) == "diff" and "other:" not in impl:
             ctx.tie_diff("tie evalConst (Lang.EC.eval vs _eval_const)", {"expr": src, "sexpr": sx}, m, impl)
         if impl.startswith("ok"):
             try:
